@@ -88,6 +88,16 @@ func ExportGenesis(ctx sdk.Context, k *evmkeeper.Keeper) *evmtypes.GenesisState 
 		return false
 	})
 
+	// accounts created with empty code (the constructor returned no code) have no code hash record,
+	// but the storage written by their constructor is part of the state and must be exported too.
+	for _, addr := range k.GetAddressesHavingStorageWithoutCode(ctx) {
+		ethGenAccounts = append(ethGenAccounts, evmtypes.GenesisAccount{
+			Address: addr.String(),
+			Code:    "",
+			Storage: k.GetAccountStorage(ctx, addr),
+		})
+	}
+
 	return &evmtypes.GenesisState{
 		Accounts: ethGenAccounts,
 		Params:   k.GetParams(ctx),
